@@ -1,6 +1,7 @@
 // c08fatal: "write failure is fatal" (C08, thorough tier).
 //
 //	c08fatal -n 40 -out cases.jsonl [-workers w]
+//	c08fatal -quick -out cases.jsonl          the quick-tier slice: three fixed small plans (see quickSpec), every k
 //
 // For each of n small plans (shapes and outcome scripts from package engine's generator, profile persist; gates and
 // overruns removed) a DRY child process runs the plan to the end with a counting vault and reports W, the number of
@@ -51,8 +52,66 @@ import (
 
 // ---- the plan of index p ------------------------------------------------------------------------------------
 
+var quickMode bool
+
+// quickSpec: the three fixed plans of the quick tier. Each contains an action that is retried after a transient
+// failure (retries >= 1, script err first), a check group and a sequence of two actions.
+//
+//	0 (strict)  plan pre group [1 action, retries 1: err, ok]; block: sequence [a0 retries 2: err, err, ok; a1 ok]; post group
+//	1           block bypass group failing (perm); pre group of 2 actions (one err, ok); 2 sequences of 2 actions, conc 2,
+//	            one action err then perm (sequence fails, tolerated); block deferred group; plan deferred group
+//	2           plan continuous group (retries 1: err, ok on its first run); block with a 2-action sequence whose second
+//	            action needs 2 attempts; second block with a post group that fails after a retry
+func quickSpec(p int) *engine.Spec {
+	st := func(os ...engine.Outcome) engine.Script {
+		var run []engine.Step
+		for _, o := range os {
+			run = append(run, engine.Step{O: o})
+		}
+		return engine.Script{run}
+	}
+	g := func(rs ...int) *engine.Group { return &engine.Group{Retries: rs} }
+	sp := &engine.Spec{Profile: "c08quick", Index: p, Kind: "fixed", Scripts: map[string]engine.Script{}}
+	E, K, P := engine.OErr, engine.OOk, engine.OPerm
+	switch p {
+	case 0:
+		sp.Shape.G[engine.GPre] = g(1)
+		sp.Scripts[engine.ChkPath(-1, engine.GPre, 0)] = st(E, K)
+		b := engine.Block{Seqs: [][]int{{2, 0}}, Conc: 1, Tol: 0}
+		b.G[engine.GPost] = g(0)
+		sp.Shape.Blocks = []engine.Block{b}
+		sp.Scripts[engine.SeqPath(0, 0, 0)] = st(E, E, K)
+	case 1:
+		b := engine.Block{Seqs: [][]int{{1, 0}, {1, 1}}, Conc: 2, Tol: 1}
+		b.G[engine.GBypass] = g(0)
+		b.G[engine.GPre] = g(1, 0)
+		b.G[engine.GDeferred] = g(1)
+		sp.Shape.Blocks = []engine.Block{b}
+		sp.Shape.G[engine.GDeferred] = g(0)
+		sp.Scripts[engine.ChkPath(0, engine.GBypass, 0)] = st(P)
+		sp.Scripts[engine.ChkPath(0, engine.GPre, 0)] = st(E, K)
+		sp.Scripts[engine.SeqPath(0, 0, 0)] = st(E, K)
+		sp.Scripts[engine.SeqPath(0, 1, 1)] = st(E, P)
+		sp.Scripts[engine.ChkPath(0, engine.GDeferred, 0)] = st(E, K)
+	default:
+		sp.Shape.G[engine.GCont] = g(1)
+		sp.Scripts[engine.ChkPath(-1, engine.GCont, 0)] = st(E, K)
+		b0 := engine.Block{Seqs: [][]int{{0, 2}}, Conc: 1, Tol: -1}
+		b1 := engine.Block{Seqs: [][]int{{1}}, Conc: 1, Tol: 0}
+		b1.G[engine.GPost] = g(1)
+		sp.Shape.Blocks = []engine.Block{b0, b1}
+		sp.Scripts[engine.SeqPath(0, 0, 1)] = st(E, K)
+		sp.Scripts[engine.SeqPath(1, 0, 0)] = st(E, K)
+		sp.Scripts[engine.ChkPath(1, engine.GPost, 0)] = st(E, E)
+	}
+	return sp
+}
+
 // spec picks the p-th small plan of the persist profile: at most 2 blocks, 16 actions.
 func spec(seed uint64, p int) *engine.Spec {
+	if quickMode {
+		return quickSpec(p)
+	}
 	idx := 0
 	for found := -1; ; idx++ {
 		sp := engine.Generate(seed, "persist", 700000+idx, engine.Options{})
@@ -313,7 +372,11 @@ type obs struct {
 }
 
 func runChild(p, k int) obs {
-	cmd := exec.Command(os.Args[0], "-child", "-plan", strconv.Itoa(p), "-k", strconv.Itoa(k))
+	args := []string{"-child", "-plan", strconv.Itoa(p), "-k", strconv.Itoa(k)}
+	if quickMode {
+		args = append(args, "-quick")
+	}
+	cmd := exec.Command(os.Args[0], args...)
 	cmd.Env = os.Environ()
 	op, _ := cmd.StdoutPipe()
 	cmd.Stderr = nil
@@ -381,7 +444,12 @@ func main() {
 	n := flag.Int("n", 40, "number of plans")
 	out := flag.String("out", "-", "output file (JSONL)")
 	workers := flag.Int("workers", 0, "child processes in parallel (default min(12, NumCPU))")
+	quick := flag.Bool("quick", false, "the quick-tier slice: three fixed small plans, every k")
 	flag.Parse()
+	quickMode = *quick
+	if quickMode {
+		*n = 3
+	}
 	seed := core.Seed()
 	if *isChild {
 		os.Exit(childMain(seed, *planIdx, *kFail))
